@@ -4,12 +4,17 @@ from harness import o_rad
 
 PAT = ['scs', 'scr', 'rcs', 'rcr']
 PROP = dict(
-    groups=['riemann2d'],
+    groups=['riemann2d', 'radshock'],
     obligations=[
+        obl('C03.radshock.eos', 'EPV.Props.C12.RadShock', ['EPV.C12.attr_%s_eos' % w for w in ('ed', 'ned', 'sn', 'ie')]
+            + ['EPV.C12.attr_%s_fluxes' % w for w in ('ed', 'ned', 'sn')],
+            models=['RadAttrED', 'RadAttrNED', 'RadAttrSn', 'RadAttrIE'], oracle=o_rad.rs_eos),
         obl('C03.riemann2d.eos', 'EPV.Props.C19.Riemann2D', ['EPV.C19.r2d_%s_consistent' % p for p in PAT],
             models=['R2d' + p.upper() for p in PAT], oracle=o_rad.r2_consistency),
     ],
     corr_models=[],
     scope='2-D steady Riemann: specific_internal_energy = pressure / density / (gamma_side - 1) at every point of every wave pattern '
-          '(part of ReportedConsistent).',
+          '(part of ReportedConsistent).  Radiative shocks: the solver attributes satisfy SIE = Pressure / Density / (gamma - 1), '
+          'Sound_Speed = Speed / Mach at every node (the public call interpolates each array separately, so between nodes the '
+          'identity holds only up to the interpolation error of the 8000+ node profile).',
 )
